@@ -29,48 +29,349 @@ theorem render_typeFirst (b64 : Bytes → Option Bytes) (ws : List WField) (v : 
 
 /-- a record value of kind `k` that is its own canonical form: the type code is set, every written field
 holds a value its column holds as such, nothing is set outside what `Parse()` sets, and the record is valid -/
-structure RecCanon (m : Model) (k : Kind) (v : Vals) : Prop where
+structure RecCanonFrom (m : Model) (k : Kind) (v0 v : Vals) : Prop where
   typeSet : v.s "recordType" = k.tag
-  canon : ∀ f ∈ (m.layout k).write, CanonField f v
-  /-- the rendering is text of one byte per character (ASCII) -/
-  runes : runeCount (render m.b64 (m.layout k).write true v) = fixedWidth (m.layout k).write
-  shaped : replay m.now (m.layout k).setType v (m.layout k).parse (tmpl m k) = v
+  canon : ∀ f ∈ (m.layout k).write, Relevant (assignDsts (m.layout k).parse) f →
+    CanonField m.b64 (rawDsts (m.layout k).parse) f v
+  /-- where `Parse()` counts characters rather than bytes: the rendering is text of one byte per character -/
+  runes : ∀ st ∈ (m.layout k).parse, usesRunes st = true →
+    runeCount (render m.b64 (m.layout k).write true v) = (render m.b64 (m.layout k).write true v).length
+  /-- `v` holds nothing but what `Parse()` stores into the value `v0` the reader parses into -/
+  shaped : replay m.now (m.layout k).setType v (m.layout k).parse v0 = v
   valid : m.validateK k v = (none, v)
 
-/-- what `decide` establishes per record kind on the regenerated layout -/
+/-- canonical with respect to the value the reader parses this kind into (a `New<T>()` template or the zero value) -/
+abbrev RecCanon (m : Model) (k : Kind) (v : Vals) : Prop := RecCanonFrom m k (tmpl m k) v
+
+/-- what `decide` establishes per record kind on the regenerated layout (kinds of at least 80 columns without
+variable sections before column 80) -/
 def FixedKind (m : Model) (k : Kind) : Bool :=
-  SimpleLayout (m.layout k) && TypeFirst (m.layout k).write && fixedWidth (m.layout k).write == 80 &&
+  LayoutOK (m.layout k) && TypeFirst (m.layout k).write && decide (80 ≤ (endOff (m.layout k).write ⟨0, []⟩).c) &&
     k != .ivData && k != .cdAddB && k != .rdAddC
+
+theorem canon_typeSet (m : Model) (k : Kind) (v0 v : Vals) (hc : RecCanonFrom m k v0 v) : TypeSet v := by
+  unfold TypeSet; rw [hc.typeSet]; cases k <;> rfl
+
+/-- the reader's layout-driven parse of the rendering of a canonical record returns the record -/
+theorem parse_canon_from (m : Model) (k : Kind) (hl : LayoutOK (m.layout k) = true) (v0 v : Vals) (hc : RecCanonFrom m k v0 v) :
+    parseValidate m k id (lineOf m k (some v)) v0 = .ok v := by
+  simp only [LayoutOK, Bool.and_eq_true] at hl
+  have hp := parse_render m.b64 m.now (m.layout k).setType (m.layout k).write v (rawDsts (m.layout k).parse)
+    (assignDsts (m.layout k).parse) hl.1
+    (canon_typeSet m k v0 v hc) hc.canon (m.layout k).parse {} v0 (fun d hd => hd) hc.runes (by intro d hd; cases hd) hl.2
+  have he : envOf v ({} : PSt).binds = [] := rfl
+  rw [he, hc.shaped] at hp
+  unfold parseValidate RecLayout.parseRec
+  simp only [lineOf]
+  rw [hp]
+  simp only [hc.valid]
+
+theorem parse_canon (m : Model) (k : Kind) (hl : LayoutOK (m.layout k) = true) (v : Vals) (hc : RecCanon m k v) :
+    parseValidate m k id (lineOf m k (some v)) (tmpl m k) = .ok v := parse_canon_from m k hl (tmpl m k) v hc
+
+theorem line_length_ge (m : Model) (k : Kind) (hl : LayoutOK (m.layout k) = true) (v : Vals) (hc : RecCanon m k v) :
+    (endOff (m.layout k).write ⟨0, []⟩).c ≤ (lineOf m k (some v)).length := by
+  simp only [LayoutOK, Bool.and_eq_true] at hl
+  have hsym : ∀ g ∈ (m.layout k).write, LenIsSym m.b64 g v := lenIsSym_all m.b64 _ _ _ v hc.canon
+  have hE := endOff_val m.b64 v (canon_typeSet m k _ v hc) (m.layout k).write ⟨0, []⟩ hl.1 hsym
+  have hE0 : (⟨0, []⟩ : SymOff).val v = 0 := by simp [SymOff.val, sumW]
+  rw [hE0, Nat.zero_add] at hE
+  simp only [lineOf]
+  rw [← hE]; unfold SymOff.val; omega
 
 /-- **C01's per-record premise from canonical values** (ASCII): the line `String()` renders for a
 canonical record is read back by the reader's decoding as that record -/
 theorem recOK_ascii (m : Model) (e : Enc) (he : e.ebcdic = false) (k : Kind) (hk : FixedKind m k = true)
     (v : Vals) (hc : RecCanon m k v) : RecOK m e (fun k v => lineOf m k (some v)) k v := by
-  simp only [FixedKind, Bool.and_eq_true, beq_iff_eq, bne_iff_ne, ne_eq] at hk
+  simp only [FixedKind, Bool.and_eq_true, decide_eq_true_eq, bne_iff_ne, ne_eq] at hk
   obtain ⟨⟨⟨⟨⟨hs, htf⟩, h80⟩, hk1⟩, hk2⟩, hk3⟩ := hk
-  simp only [SimpleLayout, Bool.and_eq_true] at hs
-  obtain ⟨⟨hwf, hfx⟩, hps⟩ := hs
-  have ht : TypeSet v := by
-    unfold TypeSet; rw [hc.typeSet]; cases k <;> rfl
   obtain ⟨rest, hr⟩ := render_typeFirst m.b64 (m.layout k).write v htf
   have hkind : kindOfLine (lineOf m k (some v)) = some k := by
     simp only [lineOf, hr, hc.typeSet]; exact kindOfLine_tag k rest
-  have hlen : (lineOf m k (some v)).length = 80 := by
-    simp only [lineOf]; rw [render_length_fixed m.b64 _ true v hwf hfx ht]; exact h80
+  have hlen := line_length_ge m k hs v hc
   refine ⟨hkind, ?_, ?_⟩
   · have : minLen m e (lineOf m k (some v)) = 80 := by
       unfold minLen; rw [hkind]; cases k <;> simp_all
     show minLen m e (lineOf m k (some v)) ≤ (lineOf m k (some v)).length
-    rw [this, hlen]; exact Nat.le_refl _
-  · have hp := parse_render m.b64 m.now (m.layout k).setType (m.layout k).write v hwf hfx ht hc.canon hc.runes
-      (m.layout k).parse [] (tmpl m k) hps
-    rw [hc.shaped] at hp
-    have hpv : parseValidate m k id (lineOf m k (some v)) (tmpl m k) = .ok v := by
-      unfold parseValidate RecLayout.parseRec
-      simp only [lineOf]
-      rw [hp]
-      simp only [hc.valid]
+    rw [this]; omega
+  · have hpv := parse_canon m k hs v hc
     show recParse m e k (lineOf m k (some v)) (tmpl m k) = .ok v
     cases k <;> simp_all [recParse, ibm1047]
+
+
+/-! ### records with variable sections: the reader's minimum-length test passes on a canonical rendering -/
+
+/-- a fixed-width string field written at symbolic offset `o` that holds the announced length `lf` -/
+def isLenField (p : SymOff × WField) (o : SymOff) (w : Nat) (lf : String) : Bool :=
+  p.1 == o && p.2.width == w && p.2.src == lf && (p.2.conv == .zstr || p.2.conv == .alpha)
+
+/-- the bytes of a canonical length field, read as a number, are the announced length -/
+theorem lenField_reads (m : Model) (k : Kind) (hl : LayoutOK (m.layout k) = true) (v : Vals) (hc : RecCanon m k v)
+    (o : SymOff) (w : Nat) (lf : String) (hnr : (rawDsts (m.layout k).parse).contains lf = false)
+    (hasg : (assignDsts (m.layout k).parse).contains lf = true)
+    (hsp : (spans (m.layout k).write ⟨0, []⟩).any (fun p => isLenField p o w lf) = true) :
+    ∃ pre post, lineOf m k (some v) = pre ++ post ∧ pre.length = o.val v ∧ w ≤ post.length ∧
+      parseNum (post.take w) = parseNum (v.s lf) := by
+  simp only [LayoutOK, Bool.and_eq_true] at hl
+  have ht := canon_typeSet m k _ v hc
+  have hsym : ∀ g ∈ (m.layout k).write, LenIsSym m.b64 g v := lenIsSym_all m.b64 _ _ _ v hc.canon
+  simp only [List.any_eq_true] at hsp
+  obtain ⟨⟨o', f⟩, hmem, hp⟩ := hsp
+  simp only [isLenField, Bool.and_eq_true, beq_iff_eq, Bool.or_eq_true] at hp
+  obtain ⟨⟨⟨ho, hw⟩, hsrc⟩, hconv⟩ := hp
+  subst ho
+  obtain ⟨pre, post, h1, h2, h3⟩ := span_split m.b64 v ht (m.layout k).write ⟨0, []⟩ o' f hl.1 hsym hmem
+  have hE0 : (⟨0, []⟩ : SymOff).val v = 0 := by simp [SymOff.val, sumW]
+  rw [hE0, Nat.zero_add] at h2
+  have hfw : f ∈ (m.layout k).write := by
+    have : ∀ (ws : List WField) (o0 : SymOff), (o', f) ∈ spans ws o0 → f ∈ ws := by
+      intro ws
+      induction ws with
+      | nil => intro o0 h; simp [spans] at h
+      | cons g r ihh =>
+        intro o0 h
+        simp only [spans, List.mem_cons, Prod.mk.injEq] at h
+        rcases h with ⟨_, hf⟩ | h
+        · simp [hf]
+        · exact List.mem_cons_of_mem _ (ihh _ h)
+    exact this _ _ hmem
+  have hwfF : WfW f = true := by
+    have := hl.1; simp only [AllWf, List.all_eq_true] at this; exact this f hfw
+  have hcf := hc.canon f hfw (Or.inr (by rw [hsrc]; simpa using hasg))
+  have hwid : f.width < maxGrow := by
+    unfold WfW at hwfF; simp only [Bool.and_eq_true, decide_eq_true_eq] at hwfF; exact hwfF.1
+  have hlenF : (renderField m.b64 f v).length = w := by
+    rw [renderField_length m.b64 f v hwfF ht]
+    unfold lenOf
+    rcases hconv with hcv | hcv <;> simp [hcv, hw]
+  have hnum : parseNum (renderField m.b64 f v) = parseNum (v.s lf) := by
+    unfold CanonField at hcf
+    unfold renderField
+    rcases hconv with hcv | hcv
+    · simp only [hcv] at hcf ⊢
+      rw [hsrc] at hcf ⊢
+      have hz : zstrField (v.s lf) f.width = v.s lf := by
+        rw [zstrField_fit _ _ (by omega) hwid]; simp [hcf.2]
+      rw [hz]
+    · simp only [hcv] at hcf ⊢
+      rw [hsrc] at hcf ⊢
+      simp only [hnr, Bool.false_eq_true, if_false] at hcf
+      have := parseStr_alphaField (v.s lf) f.width hcf.1 hcf.2 hwid
+      unfold parseStr at this
+      unfold parseNum
+      rw [this]
+      have ht2 := trimSpace_padded (v.s lf) 0 0 hcf.1
+      simp only [List.replicate_zero, List.nil_append, List.append_nil] at ht2
+      rw [ht2]
+  refine ⟨pre, renderField m.b64 f v ++ post, ?_, h2, ?_, ?_⟩
+  · simp only [lineOf]; rw [h1, List.append_assoc]
+  · simp only [List.length_append]; omega
+  · have : (renderField m.b64 f v ++ post).take w = renderField m.b64 f v := by
+      rw [← hlenF]; simp
+    rw [this, hnum]
+
+theorem line_length_eq (m : Model) (k : Kind) (hl : LayoutOK (m.layout k) = true) (v : Vals) (hc : RecCanon m k v) :
+    (lineOf m k (some v)).length = (endOff (m.layout k).write ⟨0, []⟩).val v := by
+  simp only [LayoutOK, Bool.and_eq_true] at hl
+  have hsym : ∀ g ∈ (m.layout k).write, LenIsSym m.b64 g v := lenIsSym_all m.b64 _ _ _ v hc.canon
+  have hE := endOff_val m.b64 v (canon_typeSet m k _ v hc) (m.layout k).write ⟨0, []⟩ hl.1 hsym
+  have hE0 : (⟨0, []⟩ : SymOff).val v = 0 := by simp [SymOff.val, sumW]
+  rw [hE0, Nat.zero_add] at hE
+  simp only [lineOf]; exact hE.symm
+
+theorem canon_varLenOK (m : Model) (k : Kind) (v : Vals) (hc : RecCanon m k v) (lf : String)
+    (h : (varLens (m.layout k).write).contains lf = true) : LenOK v lf := by
+  obtain ⟨g, hg, hgv, hgl⟩ := varLens_mem _ lf h
+  rw [← hgl]; exact canon_lenOK m.b64 _ g v (hc.canon g hg (Or.inl hgv)) hgv
+
+/-- records 27 and 34: 46 columns plus the image reference key announced in columns 19-22 -/
+def KeyKind (m : Model) (k : Kind) : Bool :=
+  LayoutOK (m.layout k) && TypeFirst (m.layout k).write && (k == .cdAddB || k == .rdAddC) &&
+    endOff (m.layout k).write ⟨0, []⟩ == ⟨46, ["LengthImageReferenceKey"]⟩ &&
+    (spans (m.layout k).write ⟨0, []⟩).any (fun p => isLenField p ⟨18, []⟩ 4 "LengthImageReferenceKey") &&
+    (varLens (m.layout k).write).contains "LengthImageReferenceKey" &&
+    !(rawDsts (m.layout k).parse).contains "LengthImageReferenceKey" &&
+    (assignDsts (m.layout k).parse).contains "LengthImageReferenceKey"
+
+theorem drop_take_of_append (pre post : Bytes) (n w : Nat) (h : pre.length = n) (hw : w ≤ post.length) :
+    (((pre ++ post).take (n + w)).drop n).take w = post.take w := by
+  subst h
+  rw [List.take_append]
+  simp [List.take_take]
+
+theorem recOK_ascii_key (m : Model) (e : Enc) (he : e.ebcdic = false) (k : Kind) (hk : KeyKind m k = true)
+    (v : Vals) (hc : RecCanon m k v) : RecOK m e (fun k v => lineOf m k (some v)) k v := by
+  simp only [KeyKind, Bool.and_eq_true, beq_iff_eq, Bool.or_eq_true, Bool.not_eq_true'] at hk
+  obtain ⟨⟨⟨⟨⟨⟨⟨hs, htf⟩, hkk⟩, hE⟩, hsp⟩, hvl⟩, hnr⟩, hasg⟩ := hk
+  obtain ⟨rest, hr⟩ := render_typeFirst m.b64 (m.layout k).write v htf
+  have hkind : kindOfLine (lineOf m k (some v)) = some k := by
+    simp only [lineOf, hr, hc.typeSet]; exact kindOfLine_tag k rest
+  have hlen := line_length_eq m k hs v hc
+  rw [hE] at hlen
+  have hlok := canon_varLenOK m k v hc _ hvl
+  have hwl := widthOfLen_of_lenOK v _ hlok
+  obtain ⟨pre, post, h1, h2, h3, h4⟩ := lenField_reads m k hs v hc ⟨18, []⟩ 4 "LengthImageReferenceKey" hnr hasg hsp
+  have hpre : pre.length = 18 := by rw [h2]; simp [SymOff.val, sumW]
+  refine ⟨hkind, ?_, ?_⟩
+  · show minLen m e (lineOf m k (some v)) ≤ (lineOf m k (some v)).length
+    have hval : (⟨46, ["LengthImageReferenceKey"]⟩ : SymOff).val v = 46 + widthOfLen v "LengthImageReferenceKey" := by
+      simp [SymOff.val, sumW]
+    rw [hval] at hlen
+    have hm : minLen m e (lineOf m k (some v)) = 46 + widthOfLen v "LengthImageReferenceKey" := by
+      unfold minLen
+      rw [hkind]
+      have hnl : ¬ (lineOf m k (some v)).length < 22 := by omega
+      have hn : parseNum ((((lineOf m k (some v)).take 22).drop 18).take 4) = parseNum (v.s "LengthImageReferenceKey") := by
+        rw [h1, drop_take_of_append pre post 18 4 hpre h3, h4]
+      rcases hkk with hkk | hkk <;> subst hkk <;>
+        simp only [hnl, if_false, he, Bool.false_eq_true, id] <;> rw [hn] <;>
+        (have h0 := hlok.1
+         have : ¬ parseNum (v.s "LengthImageReferenceKey") < 0 := by omega
+         simp only [this, if_false]
+         omega)
+    rw [hm, hlen]; exact Nat.le_refl _
+  · have hpv := parse_canon m k hs v hc
+    show recParse m e k (lineOf m k (some v)) (tmpl m k) = .ok v
+    rcases hkk with hkk | hkk <;> subst hkk <;> simp only [recParse, he, Bool.false_eq_true, if_false, id] <;> exact hpv
+
+
+/-! ### record 52 -/
+
+theorem ivMinLen_step (l : Bytes) (stop w : Nat) (ws : List Nat) (pre post : Bytes) (n : Int)
+    (h1 : l = pre ++ post) (h2 : pre.length = stop) (h3 : w ≤ post.length) (h4 : parseNum (post.take w) = n) (hn : 0 ≤ n) :
+    ivMinLen id l stop (w :: ws) = ivMinLen id l (stop + w + n.toNat) ws := by
+  have hd : l.drop stop = post := by rw [h1, ← h2]; simp
+  have hl : ¬ l.length < stop + w := by rw [h1, List.length_append]; omega
+  rw [ivMinLen]
+  simp only [hl, if_false, hd, id, h4]
+  have : ¬ n < 0 := by omega
+  simp only [this, if_false]
+
+def IvKind (m : Model) (k : Kind) : Bool :=
+  LayoutOK (m.layout k) && TypeFirst (m.layout k).write && k == .ivData &&
+    endOff (m.layout k).write ⟨0, []⟩ == ⟨117, ["LengthImageReferenceKey", "LengthDigitalSignature", "LengthImageData"]⟩ &&
+    (spans (m.layout k).write ⟨0, []⟩).any (fun p => isLenField p ⟨101, []⟩ 4 "LengthImageReferenceKey") &&
+    (spans (m.layout k).write ⟨0, []⟩).any (fun p => isLenField p ⟨105, ["LengthImageReferenceKey"]⟩ 5 "LengthDigitalSignature") &&
+    (spans (m.layout k).write ⟨0, []⟩).any (fun p => isLenField p ⟨110, ["LengthImageReferenceKey", "LengthDigitalSignature"]⟩ 7 "LengthImageData") &&
+    (varLens (m.layout k).write).contains "LengthImageReferenceKey" &&
+    (varLens (m.layout k).write).contains "LengthDigitalSignature" &&
+    (varLens (m.layout k).write).contains "LengthImageData" &&
+    !(rawDsts (m.layout k).parse).contains "LengthImageReferenceKey" &&
+    !(rawDsts (m.layout k).parse).contains "LengthDigitalSignature" &&
+    !(rawDsts (m.layout k).parse).contains "LengthImageData" &&
+    (assignDsts (m.layout k).parse).contains "LengthImageReferenceKey" &&
+    (assignDsts (m.layout k).parse).contains "LengthDigitalSignature" &&
+    (assignDsts (m.layout k).parse).contains "LengthImageData"
+
+theorem recOK_ascii_iv (m : Model) (e : Enc) (he : e.ebcdic = false) (k : Kind) (hk : IvKind m k = true)
+    (v : Vals) (hc : RecCanon m k v) : RecOK m e (fun k v => lineOf m k (some v)) k v := by
+  simp only [IvKind, Bool.and_eq_true, beq_iff_eq, Bool.not_eq_true'] at hk
+  obtain ⟨⟨⟨⟨⟨⟨⟨⟨⟨⟨⟨⟨⟨⟨⟨hs, htf⟩, hkk⟩, hE⟩, hsp1⟩, hsp2⟩, hsp3⟩, hv1⟩, hv2⟩, hv3⟩, hn1⟩, hn2⟩, hn3⟩, ha1⟩, ha2⟩, ha3⟩ := hk
+  subst hkk
+  obtain ⟨rest, hr⟩ := render_typeFirst m.b64 (m.layout .ivData).write v htf
+  have hkind : kindOfLine (lineOf m .ivData (some v)) = some .ivData := by
+    simp only [lineOf, hr, hc.typeSet]; exact kindOfLine_tag .ivData rest
+  have hlen := line_length_eq m .ivData hs v hc
+  rw [hE] at hlen
+  have hl1 := canon_varLenOK m .ivData v hc _ hv1
+  have hl2 := canon_varLenOK m .ivData v hc _ hv2
+  have hl3 := canon_varLenOK m .ivData v hc _ hv3
+  have hw1 := widthOfLen_of_lenOK v _ hl1
+  have hw2 := widthOfLen_of_lenOK v _ hl2
+  have hw3 := widthOfLen_of_lenOK v _ hl3
+  obtain ⟨p1, q1, a1, a2, a3, a4⟩ := lenField_reads m .ivData hs v hc _ 4 _ hn1 ha1 hsp1
+  obtain ⟨p2, q2, b1, b2, b3, b4⟩ := lenField_reads m .ivData hs v hc _ 5 _ hn2 ha2 hsp2
+  obtain ⟨p3, q3, c1, c2, c3, c4⟩ := lenField_reads m .ivData hs v hc _ 7 _ hn3 ha3 hsp3
+  simp only [SymOff.val, sumW, Nat.add_zero] at a2 b2 c2 hlen
+  refine ⟨hkind, ?_, ?_⟩
+  · show minLen m e (lineOf m .ivData (some v)) ≤ (lineOf m .ivData (some v)).length
+    have hm : minLen m e (lineOf m .ivData (some v)) = (lineOf m .ivData (some v)).length := by
+      unfold minLen
+      rw [hkind]
+      have hnl : ¬ (lineOf m .ivData (some v)).length < 80 := by omega
+      simp only [hnl, if_false, he, Bool.false_eq_true]
+      rw [ivMinLen_step _ 101 4 _ p1 q1 _ a1 a2 a3 a4 hl1.1]
+      rw [ivMinLen_step _ _ 5 _ p2 q2 _ b1 (by rw [b2]; omega) b3 b4 hl2.1]
+      rw [ivMinLen_step _ _ 7 _ p3 q3 _ c1 (by rw [c2]; omega) c3 c4 hl3.1]
+      simp only [ivMinLen]
+      omega
+    rw [hm]; exact Nat.le_refl _
+  · have hpv := parse_canon m .ivData hs v hc
+    show recParse m e .ivData (lineOf m .ivData (some v)) (tmpl m .ivData) = .ok v
+    simp only [recParse, he, Bool.false_eq_true, if_false]
+    exact hpv
+
+
+/-! ### every kind, and whole files -/
+
+/-- what `decide` establishes for each of the 21 record kinds on the regenerated layouts -/
+def KindOK (m : Model) (k : Kind) : Bool := FixedKind m k || KeyKind m k || IvKind m k
+
+theorem recOK_ascii_all (m : Model) (e : Enc) (he : e.ebcdic = false) (k : Kind) (hk : KindOK m k = true)
+    (v : Vals) (hc : RecCanon m k v) : RecOK m e (fun k v => lineOf m k (some v)) k v := by
+  simp only [KindOK, Bool.or_eq_true] at hk
+  rcases hk with (hk | hk) | hk
+  · exact recOK_ascii m e he k hk v hc
+  · exact recOK_ascii_key m e he k hk v hc
+  · exact recOK_ascii_iv m e he k hk v hc
+
+/-- every record of an item is canonical -/
+def CanonItem (m : Model) (isCheck : Bool) (it : Item Vals) : Prop :=
+  RecCanon m (if isCheck then .checkDetail else .returnDetail) it.detail ∧
+  (∀ v ∈ it.addA, RecCanon m (if isCheck then .cdAddA else .rdAddA) v) ∧
+  (∀ v ∈ it.addB, RecCanon m (if isCheck then .cdAddB else .rdAddB) v) ∧
+  (∀ v ∈ it.addC, RecCanon m (if isCheck then .cdAddC else .rdAddC) v) ∧
+  (∀ v ∈ it.addD, RecCanon m .rdAddD v) ∧
+  (∀ v ∈ it.ivDetail, RecCanon m .ivDetail v) ∧ (∀ v ∈ it.ivData, RecCanon m .ivData v) ∧
+  (∀ v ∈ it.ivAnalysis, RecCanon m .ivAnalysis v)
+
+theorem itemOK_of_canon (m : Model) (e : Enc) (he : e.ebcdic = false) (hK : ∀ k, KindOK m k = true)
+    (isCheck : Bool) (it : Item Vals) (h : CanonItem m isCheck it) :
+    ItemOK m e (fun k v => lineOf m k (some v)) isCheck it := by
+  obtain ⟨h1, h2, h3, h4, h5, h6, h7, h8⟩ := h
+  exact ⟨recOK_ascii_all m e he _ (hK _) _ h1, fun v hv => recOK_ascii_all m e he _ (hK _) _ (h2 v hv),
+    fun v hv => recOK_ascii_all m e he _ (hK _) _ (h3 v hv), fun v hv => recOK_ascii_all m e he _ (hK _) _ (h4 v hv),
+    fun v hv => recOK_ascii_all m e he _ (hK _) _ (h5 v hv), fun v hv => recOK_ascii_all m e he _ (hK _) _ (h6 v hv),
+    fun v hv => recOK_ascii_all m e he _ (hK _) _ (h7 v hv), fun v hv => recOK_ascii_all m e he _ (hK _) _ (h8 v hv)⟩
+
+/-- a bundle in canonical form: header and control present, forward items or returns (not both), the
+container-level validation of the reader passes, every record canonical -/
+structure CanonBundle (m : Model) (b : Bundle Vals) : Prop where
+  hdr : ∃ h, b.header = some h ∧ RecCanon m .bundleHeader h
+  ctl : ∃ c, b.control = some c ∧ RecCanon m .bundleControl c
+  oneKind : b.checks = [] ∨ b.returns = []
+  valid : bundleValidate b = none
+  checks : ∀ it ∈ b.checks, CanonItem m true it ∧ ItemWF true it
+  returns : ∀ it ∈ b.returns, CanonItem m false it ∧ ItemWF false it
+
+theorem bundleOK_of_canon (m : Model) (e : Enc) (he : e.ebcdic = false) (hK : ∀ k, KindOK m k = true)
+    (b : Bundle Vals) (h : CanonBundle m b) : BundleOK m e (fun k v => lineOf m k (some v)) b where
+  hdr := by obtain ⟨x, hx, hc⟩ := h.hdr; exact ⟨x, hx, recOK_ascii_all m e he _ (hK _) _ hc⟩
+  ctl := by obtain ⟨x, hx, hc⟩ := h.ctl; exact ⟨x, hx, recOK_ascii_all m e he _ (hK _) _ hc⟩
+  oneKind := h.oneKind
+  valid := h.valid
+  checks := fun it hit => ⟨itemOK_of_canon m e he hK true it (h.checks it hit).1, (h.checks it hit).2⟩
+  returns := fun it hit => ⟨itemOK_of_canon m e he hK false it (h.returns it hit).1, (h.returns it hit).2⟩
+
+structure CanonCashLetter (m : Model) (cl : CashLetter Vals) : Prop where
+  hdr : ∃ h, cl.header = some h ∧ RecCanon m .cashLetterHeader h
+  ctl : ∃ c, cl.control = some c ∧ RecCanon m .cashLetterControl c
+  rnsSome : ∀ r ∈ cl.rns, r.isSome = true
+  valid : cashLetterValidate m cl = none
+  creditItems : ∀ v ∈ cl.creditItems, RecCanon m .creditItem v
+  credits : ∀ v ∈ cl.credits, RecCanon m .credit v
+  rns : ∀ v ∈ cl.rns.filterMap id, RecCanon m .rns v
+  bundles : ∀ b ∈ cl.bundles, CanonBundle m b
+
+theorem cashLetterOK_of_canon (m : Model) (e : Enc) (he : e.ebcdic = false) (hK : ∀ k, KindOK m k = true)
+    (cl : CashLetter Vals) (h : CanonCashLetter m cl) : CashLetterOK m e (fun k v => lineOf m k (some v)) cl where
+  hdr := by obtain ⟨x, hx, hc⟩ := h.hdr; exact ⟨x, hx, recOK_ascii_all m e he _ (hK _) _ hc⟩
+  ctl := by obtain ⟨x, hx, hc⟩ := h.ctl; exact ⟨x, hx, recOK_ascii_all m e he _ (hK _) _ hc⟩
+  rnsSome := h.rnsSome
+  valid := h.valid
+  creditItems := fun v hv => recOK_ascii_all m e he _ (hK _) _ (h.creditItems v hv)
+  credits := fun v hv => recOK_ascii_all m e he _ (hK _) _ (h.credits v hv)
+  rns := fun v hv => recOK_ascii_all m e he _ (hK _) _ (h.rns v hv)
+  bundles := fun b hb => bundleOK_of_canon m e he hK b (h.bundles b hb)
 
 end Icl.C01
